@@ -2,7 +2,7 @@
 import json
 import re
 
-from ..common import Check, coq_eval, harness, harness1
+from ..common import Check, coq_eval, harness, harness1, CACHE, ALT
 from ..translate import gen_serde, gen_entry
 from ..programs import POOL
 from . import c15_serde as S
@@ -60,15 +60,23 @@ def classify_staged(case):
     return classify_f14(case) or classify_f9(case)
 
 
-def classify_empty_ident(case):
-    """narrow: the document has an empty array where an Ident is expected (the model rejects it for that reason) and real
-    serde does not reject but panics in Ident::from_path"""
-    got = case.get("got") if isinstance(case.get("got"), dict) else {}
-    p = got.get("panic") or {}
-    if ("pr/ident.rs" in p.get("loc", "") and "Option::unwrap()" in p.get("msg", "") and "[]" in case.get("json", "")
-            and str(case.get("model", "")).startswith("reject: ident:")):
-        return "F14b-empty-ident-array-panics-json"
-    return None
+def prioritise(violations):
+    """order in which violations are printed (the framework prints the first 20 distinct ones): broken obligations, then
+    the staged-vs-compile differences (the property's own statement), then the other kinds in turn, one of each"""
+    head = [v for v in violations if v[2]] + [v for v in violations if not v[2] and v[0].startswith("proof obligation")]
+    rest = [v for v in violations if v not in head]
+    staged = [v for v in rest if v[0].startswith("staged chain differs")]
+    groups = {}
+    for v in rest:
+        if v not in staged:
+            groups.setdefault(v[0], []).append(v)
+    out = head + staged[:8]
+    pools = [staged[8:]] + list(groups.values())
+    while any(pools):
+        for g in pools:
+            if g:
+                out.append(g.pop(0))
+    return out
 
 
 def err_core(r):
@@ -200,7 +208,31 @@ def run():
         ck.coverage["translator_error_serde"] = info["error"]
     if "error" in einfo:
         ck.coverage["translator_error_entry"] = einfo["error"]
-    env = S.Env(info) if "error" not in info else None
+    # the descriptor environment of the last run in which extraction succeeded on the registered tree: when the translator
+    # fails closed (an obligation is broken and there is no current model) the model streams still run against it, as a
+    # search for a concrete failing input -- what they report is then "against the last good environment"
+    import pickle
+    last_good = os.path.join(CACHE, "c15_last_good_env.pickle")
+    stale = False
+    if "error" not in info:
+        env = S.Env(info)
+        if not ALT:
+            try:
+                with open(last_good + ".tmp", "wb") as fh:
+                    pickle.dump(info, fh)
+                os.replace(last_good + ".tmp", last_good)
+            except OSError:
+                pass
+    else:
+        env = None
+        try:
+            with open(last_good, "rb") as fh:
+                env = S.Env(pickle.load(fh))
+            stale = True
+        except (OSError, pickle.PickleError, EOFError, KeyError):
+            env = None
+    ck.coverage["descriptor_environment"] = "current" if env is not None and not stale else ("LAST GOOD (translator failed closed: %s)" % info.get("error", "")[:200] if stale else "none")
+    STALE = " [against the last good descriptor environment; the translator failed closed]" if stale else ""
     names = [n[4:] for n in harness1("names", {})["target_names"] if n != "sql.any"]
 
     # ------------------------------------------------------------------ programs
@@ -265,16 +297,16 @@ def run():
                     ck.stat("model-de-ser", "both-reject")     # the model agrees with serde (F14 documents)
                 else:
                     case["got"] = "model rejects a document real serde accepts: %s" % ex
-                    ck.violation("serde model rejects prqlc's own %s JSON: %s" % (kind.upper(), ex), case)
+                    ck.violation("serde model rejects prqlc's own %s JSON: %s" % (kind.upper(), ex) + STALE, case)
                 continue
             if real_rejects:
                 case["got"] = "model accepts a document real serde rejects"
-                ck.violation("serde model accepts a %s document that real serde rejects" % kind.upper(), case)
+                ck.violation("serde model accepts a %s document that real serde rejects" % kind.upper() + STALE, case)
                 continue
             back = env.ser(root, v)
             if not S.json_eq(back, tree):
                 case["got"] = {"model": S.dumps(back)[:600], "impl": S.dumps(tree)[:600]}
-                ck.violation("ser (de json) <> json for prqlc's own %s JSON" % kind.upper(), case)
+                ck.violation("ser (de json) <> json for prqlc's own %s JSON" % kind.upper() + STALE, case)
             elif not jnodup(tree):
                 ck.violation("prqlc wrote a JSON object with a duplicate key", case)
             else:
@@ -332,7 +364,7 @@ def run():
             case = {"kind": kind, "json": rq_["json"][:1500]}
             if "ok" not in a:
                 case["got"] = a
-                ck.violation("real serde rejects / fails on a document the model produced from a well-typed value", case)
+                ck.violation("real serde rejects / fails on a document the model produced from a well-typed value" + STALE, case)
                 continue
             try:
                 t2 = S.loads(a["ok"])
@@ -342,10 +374,10 @@ def run():
                 ck.violation("model cannot read back real serde's re-serialisation", case); continue
             if S.norm_value(canon_maps(v2)) != S.norm_value(canon_maps(v)):
                 case["got"] = {"reser": a["ok"][:800]}
-                ck.violation("real serde's de . ser changes a value the model round-trips", case); continue
+                ck.violation("real serde's de . ser changes a value the model round-trips" + STALE, case); continue
             if not S.json_eq(env.ser(root, canon_maps(v2)), env.ser(root, canon_maps(v))):
                 case["got"] = {"reser": a["ok"][:800]}
-                ck.violation("real serde writes a different document than the model", case); continue
+                ck.violation("real serde writes a different document than the model" + STALE, case); continue
             if not a.get("value_eq_after_second_trip"):
                 case["got"] = "Rust value changed on the second trip"
                 ck.violation("real serde: value differs after a second round trip", case); continue
@@ -383,10 +415,10 @@ def run():
             case = {"kind": kind, "edit": how, "json": rq_["json"][:1500], "model": "accept" if mv is not None else "reject: " + why}
             if "ok" not in a and "de_err" not in a:
                 case["got"] = a
-                ck.disagreement("real serde fails (not a clean rejection) on an edited document", case, classify_empty_ident); continue
+                ck.violation("real serde fails (not a clean rejection) on an edited document", case); continue
             if ("ok" in a) != (mv is not None):
                 case["got"] = {"model": "accepts" if mv is not None else "rejects", "real": a if "ok" not in a else "accepts"}
-                ck.violation("model `de` and real serde disagree on accepting an edited %s document (%s)" % (kind.upper(), how), case); continue
+                ck.violation("model `de` and real serde disagree on accepting an edited %s document (%s)" % (kind.upper(), how) + STALE, case); continue
             if mv is None:
                 ck.stat("edited-documents", how + ":both-reject"); continue
             try:
@@ -396,7 +428,7 @@ def run():
                 ck.violation("model cannot read real serde's re-serialisation of an edited document", case); continue
             if S.norm_value(canon_maps(v2)) != S.norm_value(canon_maps(mv)):
                 case["got"] = {"reser": a["ok"][:800]}
-                ck.violation("model `de` and real serde read different values from an edited document (%s)" % how, case); continue
+                ck.violation("model `de` and real serde read different values from an edited document (%s)" % how + STALE, case); continue
             if not a.get("value_eq_after_second_trip"):
                 case["got"] = "Rust value changed on the second trip"
                 ck.violation("real serde: an accepted edited document is not stable under a second trip (c15_reserialise_stable)", case); continue
@@ -501,19 +533,18 @@ def run():
     ck.coverage["staged_matrix"] = {"programs": len(sp), "dialects": len(names), "formats": 2, "signature": 2, "plus_no_target_option": True}
 
     # F14 in the model: the witness of c15_roundtrip_refuted_nonfinite replayed on the implementation
-    a = harness1("c15_both", {"src": "from t | derive {x = 1e400}", "target": "sql.sqlite"})
+    a = harness1("c15_both", {"src": "let m = 1e400\nfrom t", "target": "sql.sqlite"})
     if isinstance(a.get("staged"), dict) and a["staged"].get("stage") == "to_pl" and "ok" in a.get("direct", {}):
-        ck.disagreement("F14 witness", {"src": "from t | derive {x = 1e400}", "kind": "nonfinite-model", "got": a["staged"]["r"]}, classify_f14)
+        ck.disagreement("F14 witness", {"src": "let m = 1e400\nfrom t", "kind": "nonfinite-model", "got": a["staged"]["r"]}, classify_f14)
         ck.coverage["f14_witness_replayed"] = True
     else:
         ck.coverage["f14_witness_replayed"] = False
 
-    # F14b / F9 directed: reproduced on every run
+    # F14b (fixed by 8eee066) directed: an empty array at an Ident position is rejected, not a panic; F9 directed
     a = harness1("c15_reser", {"kind": "pl", "json": '{"name":"P","stmts":[{"ImportDef":{"alias":null,"name":[]}}]}'})
-    if "panic" in a:
-        ck.disagreement("real serde fails (not a clean rejection) on an edited document",
-                        {"kind": "pl", "edit": "directed", "json": '{"name":"P","stmts":[{"ImportDef":{"alias":null,"name":[]}}]}',
-                         "model": "reject: ident: expected non-empty array of strings", "got": a}, classify_empty_ident)
+    if "de_err" not in a:
+        ck.violation("an empty array at an Ident position is not cleanly rejected by to_pl (F14b recurs)",
+                     {"kind": "pl", "edit": "directed", "json": '{"name":"P","stmts":[{"ImportDef":{"alias":null,"name":[]}}]}', "got": a})
     src9 = 'from [{a = "é 漢 \\u{1F600} é 漢"}] | join u (==id)'
     a = harness1("c15_both", {"src": src9, "target": "sql.sqlite"})
     if "panic" in a.get("direct", {}):
@@ -529,4 +560,5 @@ def run():
         "json_ok (no non-finite float) is a hypothesis of c15_staged_eq_direct_partial, and `the stage value is read from a document` the one of c15_staged_eq_direct_docs; the programs violating them are exactly the F14 class (stream model-de-ser: both-reject)",
         "each path is a function of its input (C11): a staged/direct mismatch is re-run 12 times and not reported when the outputs of one path already vary between calls and the two sets of outputs overlap (hash-iteration-order findings of C11)",
     ]
+    ck.violations = prioritise(ck.violations)
     ck.finish(TRUSTED, "a case is (program, dialect, format, signature) for staged-vs-direct, a JSON document for the model streams; non-trivial = compile() succeeded / the document is distinct; documents are hashed by text")
